@@ -55,13 +55,15 @@ class EnvironmentsToObjects(Filter[Environment, Iterable]):
 
     def _env_to_objects(self,env):
         from coba import __version__ #imported here to avoid circular dependency
-        yield {"version":2,"coba_version":__version__}
-        yield env.params
         I = iter(env.read())
+        batches = []
         batch = list(islice(I,1000))
         while batch:
-            yield batch
+            batches.append(batch)
             batch = list(islice(I,1000))
+        yield {"version":2,"coba_version":__version__}
+        yield env.params #some params are only known once an environment has been read
+        yield from batches
 
 class EnvironmentFromObjects(Environment):
     def __init__(self, source: Source[Iterable[object]]) -> None:
